@@ -46,6 +46,14 @@ func constGen(t reflect.Type, x interface{}) Gen {
 	}
 }
 
+// headTail keeps the first a and the last b values of a pool.
+func headTail(gs []Gen, a, b int) []Gen {
+	if len(gs) <= a+b {
+		return gs
+	}
+	return append(append([]Gen{}, gs[:a]...), gs[len(gs)-b:]...)
+}
+
 func head(gs []Gen, n int) []Gen {
 	if len(gs) > n {
 		return gs[:n]
@@ -112,7 +120,9 @@ func (p *pooler) build(t reflect.Type, fuel int) []Gen {
 	case reflect.Complex64, reflect.Complex128:
 		nz := math.Copysign(0, -1)
 		// signed zeros in either part: == (and derived Equal) ignore the sign
-		add(complex(0, 0), complex(0, nz), complex(nz, 0), complex(1, 0), complex(1, nz), complex(0, 1))
+		// three different values first (maps take their keys from the head of the key
+		// pool; 1 and i are ordered oppositely in their two parts), sign variants after
+		add(complex(0, 0), complex(1, 0), complex(0, 1), complex(0, nz), complex(nz, 0), complex(1, nz))
 	case reflect.String:
 		if p.sc.Text {
 			// the awkward ones first: nested pools only keep the head of a pool
@@ -269,6 +279,24 @@ func (p *pooler) build(t reflect.Type, fuel int) []Gen {
 					gs = append(gs, mk(ent{ck[0], v0}, ent{ck[1], v1}))
 					gs = append(gs, mk(ent{ck[1], v1}, ent{ck[0], v0}))
 				}
+				// struct values: two entries whose values differ in one element of a slice of
+				// the same length (a copy that reuses storage between entries shows)
+				if t.Elem().Kind() == reflect.Struct {
+					for _, g := range p.pool(t.Elem(), fuel-1) {
+						g := g
+						if probe := Addressable(g()); tweakSlice(probe) {
+							tw := func() reflect.Value { v := Addressable(g()); tweakSlice(v); return v }
+							gs = append(gs, mk(ent{kp[0], g}, ent{kp[1], tw}))
+							gs = append(gs, mk(ent{kp[0], tw}, ent{kp[1], g}))
+							break
+						}
+					}
+				}
+				if len(kp) >= 3 {
+					gs = append(gs, mk(ent{kp[0], v0}, ent{kp[2], v1}))
+					gs = append(gs, mk(ent{kp[2], v0}, ent{kp[1], v1}, ent{kp[0], v1}))
+					gs = append(gs, mk(ent{kp[0], v1}, ent{kp[1], v1}, ent{kp[2], v0}))
+				}
 				// composite keys: the tail of the key pool (extreme components), and two
 				// representations of one key (sign of a zero) next to a third key
 				if kk := t.Key().Kind(); kk == reflect.Struct || kk == reflect.Array {
@@ -277,16 +305,13 @@ func (p *pooler) build(t reflect.Type, fuel int) []Gen {
 						gs = append(gs, mk(ent{full[n-1], v0}, ent{full[n-2], v1}))
 						gs = append(gs, mk(ent{full[n-2], v1}, ent{full[n-1], v0}))
 					}
-					if x, y, z, ok := signTwins(full); ok {
-						gs = append(gs, mk(ent{x, v0}, ent{z, v1}))
-						gs = append(gs, mk(ent{y, v0}, ent{z, v1}))
-						gs = append(gs, mk(ent{z, v1}, ent{y, v0}))
+					if x, y, zs, ok := signTwins(full); ok {
+						for _, z := range zs {
+							gs = append(gs, mk(ent{x, v0}, ent{z, v1}))
+							gs = append(gs, mk(ent{y, v0}, ent{z, v1}))
+						}
+						gs = append(gs, mk(ent{zs[0], v1}, ent{y, v0}))
 					}
-				}
-				if len(kp) >= 3 {
-					gs = append(gs, mk(ent{kp[0], v0}, ent{kp[2], v1}))
-					gs = append(gs, mk(ent{kp[2], v0}, ent{kp[1], v1}, ent{kp[0], v1}))
-					gs = append(gs, mk(ent{kp[0], v1}, ent{kp[1], v1}, ent{kp[2], v0}))
 				}
 			}
 		}
@@ -303,7 +328,12 @@ func (p *pooler) build(t reflect.Type, fuel int) []Gen {
 			if f < 0 {
 				f = 0
 			}
-			fps[i] = head(p.pool(t.Field(i).Type, f), 5)
+			// the first values and the last two (integer extremes sit at the end of a pool)
+			tail := 2
+			if t.Field(i).Type.Kind() == reflect.Map {
+				tail = 10 // the maps over awkward composite keys come last
+			}
+			fps[i] = headTail(p.pool(t.Field(i).Type, f), 3, tail)
 			if t.Field(i).Name == "_" && len(fps[i]) > 1 {
 				fps[i] = fps[i][:1] // blank fields are not part of a struct's value (== ignores them)
 			}
@@ -381,9 +411,54 @@ func (p *pooler) build(t reflect.Type, fuel int) []Gen {
 	return gs
 }
 
+// tweakSlice changes the first element of the first non-empty slice of basic
+// elements found in the struct v (fields and arrays only), on a fresh backing
+// array; it reports whether there was one.
+func tweakSlice(v reflect.Value) bool {
+	v = access(v)
+	switch v.Kind() {
+	case reflect.Struct:
+		for i := 0; i < v.NumField(); i++ {
+			if tweakSlice(v.Field(i)) {
+				return true
+			}
+		}
+	case reflect.Array:
+		for i := 0; i < v.Len(); i++ {
+			if tweakSlice(v.Index(i)) {
+				return true
+			}
+		}
+	case reflect.Slice:
+		if v.Len() < 2 {
+			return false
+		}
+		c := reflect.MakeSlice(v.Type(), v.Len(), v.Len())
+		reflect.Copy(c, v)
+		e := c.Index(0)
+		switch e.Kind() {
+		case reflect.Int, reflect.Int8, reflect.Int16, reflect.Int32, reflect.Int64:
+			e.SetInt(e.Int() ^ 5)
+		case reflect.Uint, reflect.Uint8, reflect.Uint16, reflect.Uint32, reflect.Uint64:
+			e.SetUint(e.Uint() ^ 5)
+		case reflect.String:
+			e.SetString(e.String() + "~")
+		case reflect.Bool:
+			e.SetBool(!e.Bool())
+		case reflect.Float32, reflect.Float64:
+			e.SetFloat(e.Float() + 3)
+		default:
+			return false
+		}
+		v.Set(c)
+		return true
+	}
+	return false
+}
+
 // signTwins finds in a pool two values that are equal under == but differ in
 // the sign of a zero, and a third value that sorts between or beside them.
-func signTwins(gs []Gen) (x, y, z Gen, ok bool) {
+func signTwins(gs []Gen) (x, y Gen, zs []Gen, ok bool) {
 	if len(gs) > 200 {
 		gs = gs[:200]
 	}
@@ -396,11 +471,31 @@ func signTwins(gs []Gen) (x, y, z Gen, ok bool) {
 			if cs[i] != cs[j] || !signDiffers(gs[i](), gs[j]()) {
 				continue
 			}
+			// third keys: up to four values that differ from the twins in another
+			// component only or in everything (the first and the last candidates)
+			var cand []Gen
 			for k := range gs {
 				if cs[k] != cs[i] {
-					return gs[i], gs[j], gs[k], true
+					cand = append(cand, gs[k])
 				}
 			}
+			if len(cand) == 0 {
+				continue
+			}
+			if len(cand) > 4 {
+				cand = append(append([]Gen{}, cand[:2]...), cand[len(cand)-2:]...)
+			}
+			// prefer twins that are not the all-zero value: a third key can then sort before them
+			if i == 0 && len(gs) > 8 {
+				for i2 := 1; i2 < len(gs); i2++ {
+					for j2 := i2 + 1; j2 < len(gs); j2++ {
+						if cs[i2] == cs[j2] && cs[i2] != cs[0] && signDiffers(gs[i2](), gs[j2]()) {
+							return gs[i2], gs[j2], append(cand, gs[0]), true
+						}
+					}
+				}
+			}
+			return gs[i], gs[j], cand, true
 		}
 	}
 	return nil, nil, nil, false
